@@ -35,8 +35,33 @@ def programs(tier, seed):
     return ps
 
 
+def ref_limit_rows(tabs, nrows, table, limit):
+    """row-count oracle for '... order_rows(limit=k)' on a row-preserving prefix: exactly min(k, number of input rows) rows"""
+    from vf.sym import rel
+    from vf.sym.cell import null_cell
+
+    n = len(next(iter(tabs[table].values()))) if tabs[table] else 0
+    return rel.SideResult(["_"], [[null_cell("i")] for _ in range(min(limit, n))], ordered=False)
+
+
+LIMIT_CHAINS = [  # (label, suffix, limit of the LAST order_rows): the limit must survive whatever the builder does with the earlier steps
+    ("order_then_limit1", ".order_rows(['x']).order_rows(['y'], limit=1)", 1),
+    ("order_then_rev_limit2", ".order_rows(['x']).order_rows(['y'], reverse=['y'], limit=2)", 2),
+    ("order_order_limit1", ".order_rows(['x']).order_rows(['g']).order_rows(['y'], limit=1)", 1),
+    ("limit2_then_limit1", ".order_rows(['x'], limit=2).order_rows(['y'], limit=1)", 1),
+    ("extend_order_limit1", ".extend({'w': 'x + 1'}).order_rows(['w']).order_rows(['y'], limit=1)", 1),
+    ("limit0", ".order_rows(['x']).order_rows(['y'], limit=0)", 0),
+]
+
+
 def build_jobs(tier, seed, kf_on):
     jobs = []
+    for label, suf, k in LIMIT_CHAINS:
+        for n in (0, 1, 2, 3):
+            for bname, side in (("pandas", {"kind": "pandas", "src": progs.D + suf}), ("sqlite", {"kind": "sql", "src": progs.D + suf, "dialect": "sqlite"})):
+                jobs.append(simple.tv_job(f"limit/{label}:{bname}@{n}", {"d": progs.SCHEMA["d"]}, {"d": n}, side,
+                                          {"kind": "fn", "fn": "vf.checks.c18:ref_limit_rows", "args": ["d", k], "label": "min(limit, rows) rows"},
+                                          kf_on, tier, compare="rowcount", max_paths=1200, wall_s=40))
     for label, src, tables in programs(tier, seed):
         schema = {t: progs.SCHEMA[t] for t in tables}
         single = len(tables) == 1
